@@ -180,6 +180,13 @@ func init() {
 			b.P("def calls%s : List String := %s", strings.ToUpper(fn[:1])+fn[1:], leanStrList(cs))
 			summary["Ctl.calls."+fn] = cs
 		}
+		// the TOCTOU re-read of the running status must come before the authorisation gate
+		total, before := isRunningVsGate(findFunc(plan, "Service", "ApplyPlanLive"))
+		b.P("/-- `isRunning` reads in ApplyPlanLive: how many there are, and how many of them precede the")
+		b.P("authorisation gate `if running && !allowRestartOnRunning` -/")
+		b.P("def isRunningReads : Nat := %d", total)
+		b.P("def isRunningReadsBeforeGate : Nat := %d", before)
+		summary["Ctl.isRunningReads"] = []int{total, before}
 		b.P("/-- `isRunningStatus`: statuses that count as running -/")
 		b.P("def runningStatuses : List String := %s", leanStrList(runningCases(findFunc(plan, "", "isRunningStatus"))))
 
@@ -569,6 +576,34 @@ func gateCalls(fd *ast.FuncDecl, vocab []string) []string {
 		return true
 	})
 	return out
+}
+
+// isRunningVsGate counts the isRunning calls of ApplyPlanLive and those of them that come (in
+// source order, at the top level of the function body or nested in an earlier statement) before
+// the statement `if running && !allowRestartOnRunning`.
+func isRunningVsGate(fd *ast.FuncDecl) (total, before int) {
+	gate := token.NoPos
+	for _, st := range fd.Body.List {
+		if is, ok := st.(*ast.IfStmt); ok && src(is.Cond) == "running && !allowRestartOnRunning" {
+			gate = is.Pos()
+			break
+		}
+	}
+	if gate == token.NoPos {
+		panic("authorisation gate `if running && !allowRestartOnRunning` not found in ApplyPlanLive")
+	}
+	ast.Inspect(fd.Body, func(n ast.Node) bool {
+		if ce, ok := n.(*ast.CallExpr); ok {
+			if se, ok := ce.Fun.(*ast.SelectorExpr); ok && se.Sel.Name == "isRunning" {
+				total++
+				if ce.Pos() < gate {
+					before++
+				}
+			}
+		}
+		return true
+	})
+	return total, before
 }
 
 // runningCases: the case labels of the switch arm of isRunningStatus that returns true.
